@@ -109,6 +109,12 @@ def ensure_mir(want=('bin_off', 'milu_off')):
 IRRELEVANT = re.compile(r'^(?!.*(?:(?<![A-Za-z])Vec(?![a-z])|LinkedList|VecDeque|HashMap|HashSet|BTree|mem::|Iter|Option::|Result::|slice::|Extend|FromIterator|\bBytes|BytesMut|String::|\bstr>?::|PartialEq|PartialOrd|\bOrd\b|cmp::|checked_|wrapping_|saturating_|overflowing_|Atomic|Duration|Instant::(?!now))).*$')
 
 
+def own_panic(o):
+    """a violated panic-site obligation (label = <function>/<site>, not a Cxx/ functional one) of a function the check executed: the shipped
+    binary aborts on any panic, so a reachable panic on the property's own code path breaks the property whatever else holds"""
+    return o.status in ('violated', 'unconfirmed') and not re.match(r'^C\d\d/', o.label) and not o.label.startswith(('engine-error', 'dispatch/', 'set_rules/'))
+
+
 class Known:
     def __init__(self, path=None):
         self.path = path or os.path.join(VERIF, 'known-findings.txt')
